@@ -271,11 +271,12 @@ def probe_schedules():
         out.append([cfg, call(1, 5, [1, 2]), {"ev": "Compute", "r": 1}, {"ev": "Deliver", "r": 1}, {"ev": "Mutate", "a": 0},
                     call(2, 5, [1, 2]), {"ev": "Mutate", "a": 0}, call(3, 5, [2, 1]), call(4, 5, [1, 3]),
                     {"ev": "Compute", "r": 4}, {"ev": "Deliver", "r": 4}, {"ev": "Mutate", "a": 0}, call(5, 5, [3, 2, 1])])
-        # validator without duty: hit decided from the requested indices; amend only with newly requested indices
+        # validator without duty: hit decided from the requested indices; two fetches with overlapping missing sets
+        # in flight: the later store amends with the NEWLY requested indices only
         out.append([cfg, call(1, 5, [3]), {"ev": "Compute", "r": 1}, {"ev": "Deliver", "r": 1}, call(2, 5, [3]),
-                    call(3, 5, [3, 1]), {"ev": "Compute", "r": 3}, {"ev": "Deliver", "r": 3}, call(4, 5, [1, 3]),
-                    call(5, 5, [1, 2]), call(6, 5, [2, 3]), {"ev": "Compute", "r": 5}, {"ev": "Compute", "r": 6},
-                    {"ev": "Deliver", "r": 6}, {"ev": "Deliver", "r": 5}, call(1, 5, [1, 2, 3])])
+                    call(3, 5, [3, 1]), {"ev": "Compute", "r": 3}, call(5, 5, [1, 2]), {"ev": "Compute", "r": 5},
+                    call(6, 5, [2, 3]), {"ev": "Compute", "r": 6}, {"ev": "Deliver", "r": 3}, call(4, 5, [1, 3]),
+                    {"ev": "Deliver", "r": 5}, {"ev": "Deliver", "r": 6}, call(1, 5, [1, 2, 3]), call(2, 5, [2])])
         # trim: epochs older than ep-3 are fetched afresh, the others are kept
         out.append([cfg, call(1, 2, [1, 2]), {"ev": "Compute", "r": 1}, {"ev": "Deliver", "r": 1}, call(2, 5, [1]),
                     {"ev": "Compute", "r": 2}, {"ev": "Deliver", "r": 2}, {"ev": "Trim", "ep": 5}, call(3, 2, [1]),
@@ -393,10 +394,10 @@ def run(tier, seed):
     # stage 1: schedules
     scheds, g = vlib.gen_schedules(PID, FAMILY, "DutiesCacheGen", "DutiesCacheGen.cfg", num=1500 if thorough else 150,
                                    depth=90, seed=seed, timeout=600)
-    scheds = thin(scheds)[:4000 if thorough else 200]
+    scheds = thin(scheds)[:2000 if thorough else 200]
     probes = probe_schedules()
-    rnd = random_schedules(seed, 3000 if thorough else 250, thorough, False)
-    par = random_schedules(seed, 1500 if thorough else 100, thorough, True)
+    rnd = random_schedules(seed, 2000 if thorough else 250, thorough, False)
+    par = random_schedules(seed, 1000 if thorough else 100, thorough, True)
     # stage 2+3
     T, C = "DutiesCacheTrace", "DutiesCacheTrace.cfg"
     ch = 100 if thorough else 40      # traces per TLC process (validation runs NCPU processes side by side)
